@@ -23,6 +23,8 @@ type Link struct {
 	After  func(r, n int, err error)
 	// Extra is for the harness (e.g. its white-box tracker).
 	Extra any
+	// Alt, when set, is the opposite direction over the same connection (items with Reverse use it).
+	Alt *Link
 }
 
 // Policy chooses the read-buffer size: fixed D, or pending + D.
@@ -75,6 +77,11 @@ func Bubble(t *testing.T, f func()) (panicked string) {
 	return ""
 }
 
+// Transfer prepares a checked transfer over this link.
+func (l *Link) Transfer(payload []byte, writes []int, each bool, pol Policy, buf []byte) *Transfer {
+	return l.transfer(payload, writes, each, pol, buf)
+}
+
 func (l *Link) transfer(payload []byte, writes []int, each bool, pol Policy, buf []byte) *Transfer {
 	tr := &Transfer{W: l.W, R: l.R, Payload: payload, Writes: writes, DrainEach: each, Buf: buf, Before: l.Before, After: l.After}
 	tr.ReadSize = func(received, accepted int) int {
@@ -90,18 +97,30 @@ func (l *Link) transfer(payload []byte, writes []int, each bool, pol Policy, buf
 	return tr
 }
 
-// FidelityResult is the result of one fault-free transfer on a fresh Link.
-type FidelityResult struct {
+// Item is one checked transfer of a sequence run over the same fresh Link.
+type Item struct {
+	Payload []byte
+	Writes  []int
+	Each    bool // read after each write (else after the last)
+	Pol     Policy
+	Reverse bool // run over Link.Alt (the opposite direction of the same connection)
+}
+
+// SeqResult is the result of one execution: a fresh Link and a sequence of fault-free transfers over it.
+type SeqResult struct {
 	Panic   string   // the bubble panicked / deadlocked
 	Infra   error    // setup failed (no verdict)
-	Problem *Problem // violated expectation
+	Done    int      // items completed without a Problem
+	Problem *Problem // violated expectation in item number Done
 	End     string   // what the reader saw after the writer closed: "eof", "error", "zero-reads"
-	Tr      *Transfer
 	Link    *Link
 }
 
-// RunFidelity: fresh bubble, fresh Link, Transfer.Run, writer closes, reader must not get another byte.
-func RunFidelity(t *testing.T, setup func() (*Link, error), payload []byte, writes []int, each bool, pol Policy, buf *[]byte) (res FidelityResult) {
+// RunFidelity: fresh bubble, fresh Link, then every item in turn (Transfer.Run; after is called when an
+// item completed intact), then the writer closes and the reader must not get another byte. The items share
+// the connection, so the layer's state (nonces, queued remainders, key stream position) carries over from
+// one transfer to the next, as on a long-lived connection. Stops at the first Problem.
+func RunFidelity(t *testing.T, setup func() (*Link, error), items []Item, buf *[]byte, after func(i int, tr *Transfer, l *Link)) (res SeqResult) {
 	res.Panic = Bubble(t, func() {
 		l, err := setup()
 		if err != nil {
@@ -110,14 +129,27 @@ func RunFidelity(t *testing.T, setup func() (*Link, error), payload []byte, writ
 		}
 		res.Link = l
 		defer l.Close()
-		tr := l.transfer(payload, writes, each, pol, *buf)
-		res.Tr = tr
-		res.Problem = tr.Run()
-		if res.Problem == nil && l.CloseW != nil {
+		var tr *Transfer
+		for i, it := range items {
+			ll := l
+			if it.Reverse && l.Alt != nil {
+				ll = l.Alt
+			}
+			tr = ll.transfer(it.Payload, it.Writes, it.Each, it.Pol, *buf)
+			res.Problem = tr.Run()
+			*buf = tr.Buf
+			if res.Problem != nil {
+				return
+			}
+			res.Done = i + 1
+			if after != nil {
+				after(i, tr, l)
+			}
+		}
+		if tr != nil && l.CloseW != nil {
 			l.CloseW()
 			res.End, res.Problem = tr.AfterClose(4)
 		}
-		*buf = tr.Buf
 	})
 	return res
 }
